@@ -197,6 +197,10 @@ NOT_APPLICABLE = {
            "symbolic values cannot cross that boundary, a solver would only pick among concrete presence combinations (enumeration in disguise)",
 }
 
+# thorough tiers that were run end-to-end on the unchanged tree and exited 0 (DESIGN.md 8.4); the others exist in the code
+# (engine/run.sh check <id> --tier thorough) but are not registered until they have been sized and verified
+THOROUGH_OK = {"C12"}
+
 PENDING_REASON = "check not built yet in this session (solver-based harness planned in DESIGN.md); not claimed until it runs"
 
 
@@ -207,10 +211,11 @@ def main():
         if pid not in CLAIMED:
             continue
         c = CLAIMED[pid]
+        entry = {"thorough_cmd": f"engine/run.sh check {pid} --tier thorough"} if pid in THOROUGH_OK else {}
         checks.append({
+            **entry,
             "property_id": pid,
             "quick_cmd": f"engine/run.sh check {pid} --tier quick",
-            "thorough_cmd": f"engine/run.sh check {pid} --tier thorough",
             "evidence_file": f"evidence/{pid}.json",
             "replay_cmd_template": "engine/run.sh replay {path}",
             "engine": c.get("engine", "crosshair-harness"),
